@@ -244,7 +244,7 @@ func c09Sentinel(c *core.Ctx, rs *types.Named) {
 			}
 			nSearch++
 			c.Analysed(facts.FuncName(fn))
-			conds := facts.CondsAt(ci.Block())
+			conds := condsAtUp(ci.Block(), 2)
 			if s, isS := facts.ConstString(a[1]); isS && s == "" {
 				okCat := false
 				for _, cd := range conds {
